@@ -16,6 +16,7 @@ EXPLANATION = (
     "largest used feature index (canonical form max(used) - len(names) >= 0 raises), where `used` are the non-None entries of "
     "tree_.features; (c) the isinstance / check_is_fitted guards and the names guard precede any output. Not decided: the "
     "textual round trip (formatting of floats, parsing).")
+ADOPT = [("C18", ["C18-d"], "the printed thresholds are the float64 values: the rules send a point where predict sends it only if predict compares the same float64 values")]
 ASSUMPTIONS = ["Tree.predict routes `feature <= threshold` to children_left (checked in C09-f)"]
 K = "gemclus.tree.kauri"
 
